@@ -25,7 +25,8 @@ TY_RT = {"int": "Int", "float": "Float", "str": "String", "bool": "Bool"}
 
 
 class Expander:
-    def __init__(self, pl, lit_kinds=None, ops=None, tys=None):
+    def __init__(self, pl, lit_kinds=None, ops=None, tys=None, optional_annotations=False):
+        self.optional_annotations = optional_annotations; self.nann = 0
         self.pl = pl; m = pl.m
         self.EK = M.QENUMS[("sylt_parser", "ExpressionKind")]; self.AK = M.QENUMS[("sylt_parser", "AssignableKind")]
         self.CK = M.QENUMS[("sylt_parser", "ComparisonKind")]; self.TK = M.QENUMS[("sylt_parser", "TypeKind")]
@@ -145,6 +146,47 @@ class Expander:
             opts.append(EnumV("sylt_parser::StatementKind", SK.index("Block"), [self.walk(body)]))
         sv = self.sel("alt" + m.group(1), list(range(len(opts))))
         return StructV("Statement", [st.fields[0], ChoiceV(sv, opts), st.fields[2]])
+    # ---- annotation sites become a choice between the annotation as written and its absence (C08)
+    def _is_kind(self, ty, name, rt=None):
+        k = ty.fields[1]
+        if not isinstance(k, EnumV) or self.TK[k.disc] != name: return False
+        if rt is None: return True
+        return isinstance(k.fields[0], EnumV) and self.RT[k.fields[0].disc] == rt
+    def _absent(self, ty, what):
+        if what == "definition": kind = EnumV("sylt_parser::TypeKind", self.TK.index("Implied"), [])
+        else: kind = EnumV("sylt_parser::TypeKind", self.TK.index("Resolved"), [EnumV("sylt_common::Type", self.RT.index("Unknown"), [])])
+        return StructV("Type", [M.deep(ty.fields[0]), kind])
+    def annot_choice(self, ty, what):
+        self.nann += 1
+        sv = self.sel("ann%d" % self.nann, ["present", "absent"])
+        return ChoiceV(sv, [ty, self._absent(ty, what)])
+    def walk_annotations(self, v):
+        SK = M.QENUMS[("sylt_parser", "StatementKind")]
+        if isinstance(v, EnumV):
+            if v.ty.endswith("StatementKind") and SK[v.disc] == "Definition":
+                ident, kind, ty, value = v.fields
+                value = self.walk_annotations(value)
+                if not self._is_kind(ty, "Implied"): ty = self.annot_choice(ty, "definition")
+                return EnumV(v.ty, v.disc, [ident, kind, ty, value])
+            if v.ty.endswith("ExpressionKind") and self.EK[v.disc] == "Function":
+                name, params, ret, body, pure = v.fields
+                nps = []
+                for p in params.items:
+                    pid, pty = p.fields
+                    if not self._is_kind(pty, "Resolved", "Unknown") and not self._is_kind(pty, "Fn"): pty = self.annot_choice(pty, "param")
+                    nps.append(TupleV([pid, pty]))
+                if not self._is_kind(ret, "Resolved", "Void") and not self._is_kind(ret, "Resolved", "Unknown"): ret = self.annot_choice(ret, "ret")
+                return EnumV(v.ty, v.disc, [name, VecV(nps), ret, self.walk_annotations(body), pure])
+            return EnumV(v.ty, v.disc, [self.walk_annotations(x) for x in v.fields])
+        if isinstance(v, StructV): return StructV(v.ty, [self.walk_annotations(x) for x in v.fields])
+        if isinstance(v, TupleV): return TupleV([self.walk_annotations(x) for x in v.fields])
+        if isinstance(v, BoxV): return BoxV(self.walk_annotations(v.fields[0]))
+        if isinstance(v, VecV): return VecV([self.walk_annotations(x) for x in v.items])
+        if isinstance(v, M.MapV):
+            mv = M.MapV(v.kind)
+            for kr, (k, val) in v.d.items(): mv.d[kr] = [k, self.walk_annotations(val)]
+            return mv
+        return v
     def walk(self, v):
         if isinstance(v, StructV):
             if v.ty == "Statement" and len(v.fields) == 3:
